@@ -41,6 +41,22 @@ MANIFEST = {
 }
 
 PKGVARS = os.path.join(common.COQ, "c20", "C20PkgVars.v")
+REACH = os.path.join(common.COQ, "c20", "C20Reach.v")
+ALIAS = os.path.join(common.COQ, "c20", "C20Alias.v")
+FACTS_V = os.path.join(common.COQ, "c20", "C20Facts.v")
+REGISTRY_VARS = {"mp4.decoders", "mp4.decodersSR"}
+REGISTRY_MUTATORS = {"SetBoxDecoder", "RemoveBoxDecoder"}
+# mirrors kind_globals_r / global_idx of coq/c20/C20ReachProofs.v (only used to NAME the offender; the theorem decides)
+KIND_GLOBALS = {"KDecode": {0, 1, 2, 3}, "KDecodeSR": {1, 2, 3}, "KToByteStream": set(), "KToNaluSample": set(),
+                "KSetBoxDecoder": {0, 1}, "KRemoveBoxDecoder": {0, 1}}
+GLOBAL_IDX = {"mp4.decoders": 0, "mp4.decodersSR": 1, "mp4.sgeDecoders": 2}
+
+
+def coq_list(path, name):
+    """The ("a", "b") pairs of `Definition <name> ... := [ ... ].` in a hand-written .v file (single source for the audit lists)."""
+    import re
+    m = re.search(r"Definition %s\b.*?:=\s*\[(.*?)\]\s*\." % name, open(path).read(), re.S)
+    return set("%s.%s" % (a, b) for a, b in re.findall(r'\(\s*"([^"]*)"\s*,\s*"([^"]*)"\s*\)', m.group(1))) if m else set()
 ALLOWED_WRITERS = {"init", "<pkg-initializer>", "SetBoxDecoder", "RemoveBoxDecoder"}
 AUDITED_ESCAPES = {("mp4", v, f) for v in ("uuidTfxd", "uuidTfrf", "uuidPiffSenc")
                    for f in ("UUIDBox.Size", "UUIDBox.EncodeSW", "UUIDBox.SubType")}
@@ -71,10 +87,12 @@ def build(ctx):
 def extract_facts(ctx, plain):
     """Runs the extractor (it rewrites C20PkgVars.v only when the table differs) and re-evaluates the policy on the
     TSV listing so that a violation can name the variable, the function and the source line."""
-    rc, so, se = sh2([plain, "facts", "-repo", common.REPO, "-out", PKGVARS], timeout=600)
+    rc, so, se = sh2([plain, "facts", "-repo", common.REPO, "-out", PKGVARS, "-reach", REACH], timeout=600)
     if rc != 0:
         raise common.CheckError("source-fact extractor failed: " + (se or so)[-1500:])
     nvars, offenders, uses, skipped, stats = 0, [], 0, [], ""
+    audited_shared = coq_list(FACTS_V, "audited_shared")
+    reach = {"api_ops": 0, "reachable_reads": 0, "exported_writers": [], "shared_reference_typed": [], "stats": ""}
     for l in so.splitlines():
         f = l.split("\t")
         if f[0] == "VAR":
@@ -97,7 +115,36 @@ def extract_facts(ctx, plain):
         elif f[0] == "STATS":
             stats = " ".join(f[1:])
         elif f[0] == "WROTE":
-            ctx.log("source facts changed: %s rewritten" % os.path.relpath(PKGVARS, common.ROOT))
+            ctx.log("source facts changed: %s rewritten" % os.path.relpath(f[1], common.ROOT))
+        elif f[0] == "RSTATS":
+            reach["stats"] = " ".join(f[1:])
+        elif f[0] == "RMISSING":
+            offenders.append({"variable": "(api)", "function": f[1], "use": "function named by the footprint table no longer exists", "at": f[1]})
+        elif f[0] == "REACH":
+            kind, fns, rd, wr = f[1], f[2], [x for x in f[3].split(",") if x], [x for x in f[4].split(",") if x]
+            reach["api_ops"] += 1
+            reach["reachable_reads"] += len(rd)
+            allowed = KIND_GLOBALS.get(kind, {3})
+            for v in rd:
+                if GLOBAL_IDX.get(v, 3) not in allowed:
+                    offenders.append({"variable": v, "function": fns, "use": "reachable read not covered by the footprint table entry %s" % kind, "at": fns})
+            for v in wr:
+                if not (kind in ("KSetBoxDecoder", "KRemoveBoxDecoder") and v in REGISTRY_VARS):
+                    offenders.append({"variable": v, "function": fns, "use": "reachable change from table operation %s" % kind, "at": fns})
+        elif f[0] == "XWRITER":
+            pkg, fn, vs, kind, path = f[1:6]
+            reach["exported_writers"].append("%s.%s" % (pkg, fn))
+            if not (pkg == "mp4" and fn in REGISTRY_MUTATORS and set(vs.split(",")) <= REGISTRY_VARS):
+                offenders.append({"variable": vs.split(",")[0], "function": "%s.%s" % (pkg, fn),
+                                  "use": "%s reachable from the exported function via %s" % (kind, path), "at": path.split(" -> ")[-1]})
+        elif f[0] == "SHARED":
+            pkg, name, tk, us, wit, nf = f[1:7]
+            reach["shared_reference_typed"].append("%s.%s:%s:%s" % (pkg, name, tk, us))
+            if "%s.%s" % (pkg, name) not in audited_shared:
+                offenders.append({"variable": "%s.%s" % (pkg, name), "function": wit,
+                                  "use": "NEW package-level variable of reference type (%s; uses %s) reachable from %s exported function(s); not in audited_shared"
+                                         % (tk, us, nf), "at": wit})
+    ctx.notes["reach_facts"] = reach
     ctx.notes["source_facts"] = {"package_level_vars": nvars, "non_read_uses": uses, "offending_uses": len(offenders),
                                  "stats": stats, "files_skipped_by_build_tag": skipped}
     return offenders
